@@ -296,7 +296,7 @@ Section Engine.
         try (cbn [r_out]; destruct (is_panic (r_out (fail_op s id EConnectionClosed))) eqn:E; [right; exact E|left; reflexivity]).
       all: repeat dm; try (left; reflexivity); eapply fail_op_out_plain; [exact El|rewrite Ep; reflexivity]. }
     unfold Model.try_. destruct Hr as [Hr|Hr]; [rewrite Hr; left; reflexivity|].
-    match goal with |- context [match r_out ?r with _ => _ end] => destruct (r_out r) eqn:E2; try discriminate end. right. reflexivity.
+    match goal with |- context [match r_out ?r with _ => _ end] => destruct (r_out r) eqn:E2; try (cbn in Hr; discriminate Hr) end. right. rewrite E2. reflexivity.
   Qed.
 
   Lemma try_closed (r : res) K :
@@ -319,8 +319,8 @@ Section Engine.
     assert (H0 : flow_m Halted s0v) by (eapply flow_eq; [..|eapply flow_halted; exact Hf]; reflexivity).
     apply try_closed; [apply closed_current_out|apply closed_current_spec; [exact H0|reflexivity]|].
     intros s1 Hc.
-    destruct (slow_start_init s1) as [s2| |] eqn:E2; [|left; reflexivity..].
-    destruct (update_retries s2) as [s3| |] eqn:E3; [|left; reflexivity..].
+    destruct (slow_start_init s1) as [s2| |] eqn:E2; [|exfalso; revert E2; unfold Model.slow_start_init; repeat dm; discriminate|left; reflexivity].
+    destruct (update_retries s2) as [s3| |] eqn:E3; [|exfalso; revert E3; unfold Model.update_retries; repeat dm; discriminate|left; reflexivity].
     (* the two bookkeeping passes only rewrite operations in place *)
     assert (H2 : closedP s2).
     { destruct Hc as (A & B & C). revert E2. unfold Model.slow_start_init. repeat dm; intros H; inversion H; subst; try (split; [|split]; assumption).
